@@ -25,7 +25,7 @@ func checkC04(p *Prog, r *Result, tier string) {
 	mask := effs(EDirty, EIdxWLive, ECfgW, EFsWSchema)
 	var jobs []exploreJob
 	for _, f := range apiRoots(p) {
-		if f.Parent() != nil {
+		if p.GoRoot[f] && (f.Parent() != nil || p.GoOnly[f]) {
 			continue
 		}
 		cl := c.Of(f)
